@@ -123,6 +123,12 @@ class Controller:
         self.idle_hook = None  # optional callable(loop) -> bool (scripted drivers)
         self.k2_used = 0
         self.thread_wait = None  # optional callable(loop) used when real threads exist
+        # fairness: the environment does not stay silent forever while the loop is busy - after
+        # this many consecutive declined injection points the first enabled action is injected
+        # (no decision).  Only code that keeps the loop spinning ever gets there.
+        self.fair_after = 64
+        self.declined = 0
+        self.forced = 0
 
     # -- environment actions -------------------------------------------------------
     def add_action(self, name, fn, enabled=None, after=()):
@@ -145,6 +151,7 @@ class Controller:
 
     def _inject(self, loop, a):
         a.done = True
+        self.declined = 0
         self.action_log.append((loop.handles_run, loop.iteration, loop._vtime, a.name))
         if self.on_inject is not None:
             self.on_inject(a.name)
@@ -164,8 +171,13 @@ class Controller:
             en = self._enabled_actions()
             if not en:
                 return
+            if self.declined >= self.fair_after:
+                self.forced += 1
+                self._inject(loop, en[0])
+                return
             c = self.chooser.choose(1 + len(en), "K1")
             if c == 0:
+                self.declined += 1
                 return
             self._inject(loop, en[c - 1])
 
@@ -173,12 +185,14 @@ class Controller:
         if self.passthrough or not self.k1:
             return
         en = self._enabled_actions()
-        if not en:
+        if not en or self.declined >= self.fair_after:
             return
         c = self.chooser.choose(1 + len(en), "K4")
         if c:
             self._inject(loop, en[c - 1])
             loop._in_handle = True
+        else:
+            self.declined += 1
 
     def boundary(self, loop):
         """Batch boundary with a non-empty ready queue."""
@@ -205,6 +219,7 @@ class Controller:
             raise Deadlock("idle in passthrough mode")
         if self.idle_hook is not None and self.idle_hook(loop):
             return
+        self.declined = 0
         en = self._enabled_actions()
         # (a timer at +inf, e.g. sleep_forever(), never fires: it does not count)
         timer = bool(loop._scheduled) and loop._scheduled[0]._when != float("inf")
